@@ -740,6 +740,10 @@ def run(rep: Any, tier: str, seed: int) -> None:
     gc.freeze()
     found = c10_hist.run(rep, tier, seed) or found
     gc.unfreeze()
+    # ---- third family: same-named compute-framework classes; API entries by name / by class object (harness/c10_twin.py)
+    from harness import c10_twin
+    gc.collect()
+    found = c10_twin.run(rep, tier, seed) or found
     if not pr.ok and not found:
         rep.finding("proof-broken", "Props/C10.v no longer checks",
                     {"failed_files": pr.failed_files, "forbidden": pr.forbidden, "log_tail": pr.log[-3000:]}, found_input=False)
@@ -751,6 +755,10 @@ def replay(path: str) -> int:
     if r.get("kind") in ("hist", "hist-dep"):
         from harness import c10_hist
         c10_hist.replay(r)
+        return 0
+    if r.get("kind") in ("twin", "twin-order"):
+        from harness import c10_twin
+        c10_twin.replay(r)
         return 0
     u = r.get("universe")
     if not u:
